@@ -194,6 +194,7 @@ inductive Leaf where
   | int (i : Int)
   | str (s : Text)
   | bool (b : Bool)
+  | dt (x : DateTime)     -- a `datetime` (only as an out-header / return value: no `PK` reads it)
   deriving Repr, DecidableEq
 
 /-- occurrence attributes of a member. `many` = `Array(T)` or `max_occurs > 1`;
@@ -330,6 +331,7 @@ def leafText : Leaf → Option Text
   | .int i => some (intText i)
   | .str s => some s
   | .bool b => some (boolToText b)
+  | .dt x => some (isoDateTime x)
 
 /-- `_to_native_values` for the three kinds (no facets: soft validation of the leaf is vacuous) -/
 def toNative (F : Facts03) (p : PK) : List (Option Text) → Outcome (List Leaf)
